@@ -1,13 +1,15 @@
 """C02 - type soundness: accepted programs never hit dynamic type errors.
 
-SyltSound (TLA+) defines the universe of ALMOST-WELL-TYPED programs: a menu of 27 perturbation kinds (P1..P27: literal of
+SyltSound (TLA+) defines the universe of ALMOST-WELL-TYPED programs: a menu of 30 perturbation kinds (P1..P30: literal of
 another type, operator of another class, argument dropped/added, declaration moved into a branch with the use left
 after it, use before declaration, call of a non-function, missing field, function parameter at two types, branches of
 different types, void as value, variant payloads, list element types, field / variable assigned another type, global
 order, case bindings, annotations, return types, tuple index, conditions, missing return, a value of a similar user type,
 an ill-typed operand routed through an un-annotated parameter by provenance, a name used outside its region, a global
-initialiser depending on itself through a call, two-point operator / compound-assignment perturbations) applied at EVERY applicable
-node of well-typed bases: 18 dedicated programs (one of them perturbed inside the common Prelude too), SyltGen's templates in their harness contexts, and (thorough) a seeded
+initialiser depending on itself through a call, two-point operator / compound-assignment perturbations, a value of still unknown
+type sent through a generic container inside a helper that is called at another type, an operator applied to the content of a
+generic holder BEFORE its type is determined elsewhere, a case without else that is not total) applied at EVERY applicable
+node of well-typed bases: 19 dedicated programs (one of them perturbed inside the common Prelude too), SyltGen's templates in their harness contexts, and (thorough) a seeded
 shard of the pairwise nesting.  TLC (MC_Sound, MODE=emit) enumerates (base, site, alternative) and prints the programs.
 The recorder (c02) compiles each with the real compiler and runs ONLY the accepted ones in minilua, logging the run.
 TLC (Trace_Sound) re-derives every case from its id, validates the recorded events against SyltSound's outcome
@@ -56,7 +58,28 @@ def emit(wd, name, env, timeout):
     for (t, p) in r.records:
         if t == "REPLAY":
             byid[json.dumps(p["id"], sort_keys=True)] = p      # PrintT may be evaluated twice: dedupe by id
+    r.records = []                                              # (a thorough universe is > 100 000 programs: do not keep them twice)
     return r, prelude, menu, list(byid.values())
+
+
+def slim(cases):
+    """drop the programs from memory once they are on disk (cases file of record()); keep their hash for the statistics"""
+    for c in cases:
+        if "tops" in c:
+            c["sha"] = vlib.sha(c["tops"])
+            del c["tops"]
+
+
+def full_cases(cf, wanted):
+    """the complete cases (with their programs) number `wanted` (1-based), read back from the cases file"""
+    out = {}
+    if wanted:
+        want = set(wanted)
+        with open(cf) as f:
+            for n, line in enumerate(f, 1):
+                if n in want:
+                    out[n] = json.loads(line)
+    return out
 
 
 def record(wd, name, prelude, cases, stub=None):
@@ -92,12 +115,14 @@ def validate(wd, name, tf, progs=None, workers=4, timeout=2400, must_be_ok=True)
     return v, rejects
 
 
-def judge(verdicts, cases, trace, detail, rejects, prelude):
-    """rejected records -> violations (signature from the case); returns per-signature counts"""
+def judge(verdicts, cases, trace, detail, rejects, prelude, cf=None):
+    """rejected records -> violations (signature from the case); returns per-signature counts
+    (cf: the cases file, when the programs were dropped from `cases` by slim())"""
     per_sig = {}
+    full = full_cases(cf, list(rejects)) if cf else {}
     for idx in sorted(rejects):
         p = rejects[idx]
-        c, t, d = cases[idx - 1], trace[idx - 1], detail[idx - 1]
+        c, t, d = full.get(idx, cases[idx - 1]), trace[idx - 1], detail[idx - 1]
         why = p["why"]
         if why in TOOL_WHYS or why.startswith("unsupported"):
             vlib.tool_error("record %d is not a log of the protocol (%s): %s" % (idx, why, str(t["ev"][-3:])[:300]))
@@ -171,9 +196,23 @@ def run(ctx):
     missing = [k for k in menu["kinds"] if k not in kinds_emitted]
     if missing:
         vlib.tool_error("vacuity: perturbation kinds without a single case: %s" % missing)
+    # the index-addressed families (P28 / P29) are rotated over the bodies of the dense base: every combination must show up there
+    dense_variants = {}
+    for c in cases:
+        if c["id"]["b"]["o"] == "D:twopoint" and c["kd"][:3] in ("P28", "P29"):
+            dense_variants.setdefault(c["kd"][:3], set()).add(c["v"])
+    want_variants = {"P28": menu["p28"], "P29": menu["p29local"] + menu["p29global"]}
+    for kd, want in want_variants.items():
+        if len(dense_variants.get(kd, ())) != want:
+            vlib.tool_error("vacuity: the dense base shows %d of the %d combinations of %s (the rotation over its bodies no longer covers them)" % (
+                len(dense_variants.get(kd, ())), want, kd))
 
     # ---- conformance: compile all, run the accepted ones, validate every record
+    n = len(cases)
+    step = max(1, n // 600)
+    sub = [dict(c) for c in cases[::step][:700]]            # the subsample of the negative controls keeps its programs
     tf, trace, detail = record(wd, "universe", prelude, cases)
+    slim(cases)
     v, rejects = validate(wd, "universe", tf, timeout=3000)
     if sorted(v.results) != list(range(1, len(cases) + 1)):
         vlib.tool_error("Trace_Sound judged %d of %d records" % (len(v.results), len(cases)))
@@ -187,9 +226,8 @@ def run(ctx):
     idle = [a for a in TRACE_LETTERS.values() if action_counts.get(a, 0) == 0]
     if idle:
         vlib.tool_error("vacuity: trace actions never taken: %s" % idle)
-    per_sig = judge(verdicts, cases, trace, detail, rejects, prelude)
+    per_sig = judge(verdicts, cases, trace, detail, rejects, prelude, cf=os.path.join(wd, "universe-cases.ndjson"))
 
-    n = len(cases)
     accepted = [i for i in range(n) if detail[i]["accepted"]]
     errkinds = {}
     for d in detail:
@@ -222,8 +260,6 @@ def run(ctx):
 
     # ---- negative controls: a recorder that reports a dynamic type error / a read of a never-written global for every
     # 5th accepted run must be rejected by TLC for exactly those records; a falsified kind must stop the validation
-    step = max(1, n // 600)
-    sub = cases[::step][:700]
     neg_total = 0
     for stub, expect in (("dynerr", "dyn_type_error:arith-on-nil"), ("unwritten", "read-of-unwritten-global"),
                          ("nilprint", "nil-where-value-expected")):
@@ -258,15 +294,17 @@ def run(ctx):
                         "rejected_by_spec": rejects[idx]["why"], "program_tail": tail_of(detail[idx - 1].get("source", ""))[:600]})
     ev.set(states=v.distinct + r.distinct + p0.distinct, transitions=v.generated + r.generated + p0.generated,
            traces_validated_against_impl=n, programs=n, evaluations=n,
-           distinct_nontrivial=len({vlib.sha(cases[i]["tops"]) for i in accepted}), distinct_programs=len({vlib.sha(c["tops"]) for c in cases}),
+           distinct_nontrivial=len({cases[i]["sha"] for i in accepted}), distinct_programs=len({c["sha"] for c in cases}),
            bases=menu["bases"], sites=r.distinct // 2, perturbation_kinds=len(menu["kinds"]),
+           indexed_family_sizes={"P28": menu["p28"], "P29-local": menu["p29local"], "P29-global": menu["p29global"]},
            rejected_by_compiler=n - len(accepted), rejected_by_checker=rejected_by_checker, reject_kinds=errkinds,
            accepted_and_run=len(accepted), terminals=terminals, by_kind=by_kind, kinds_never_accepted=kinds_never_accepted,
            spec_rejects=len(rejects), violation_signatures=len(per_sig), signature_counts=per_sig,
            trace_actions_records=action_counts, reference_run_status=spec_status,
            emit_wall_s=round(r.wall_s, 1), validate_wall_s=round(v.wall_s, 1),
            negative_controls_rejected=neg_total, known_findings_hit=verdicts.known_hits, exhaustive=(tier == "thorough" and False),
-           rule=universe_rule + "; every alternative of the 27-kind menu (two-point kinds P26/P27 dense in D:twopoint, every 20th combination elsewhere) at every node; non-trivial = the perturbed program was ACCEPTED by the compiler "
+           rule=universe_rule + "; every alternative of the 30-kind menu (two-point kinds P26/P27 dense in D:twopoint, every 20th combination elsewhere; the index-addressed "
+                "families P28/P29: every combination 1-3 times over the bodies of D:twopoint, every 200th combination per body / every 144th per program elsewhere) at every node; non-trivial = the perturbed program was ACCEPTED by the compiler "
                 "and run to a terminal event (the property only speaks about those); distinct by AST hash",
            samples=samples)
     ev.assume("minilua stands in for Lua 5.3; its error classes (arithmetic / call / index / compare / concat / bad argument) follow the reference manual's messages",
